@@ -148,7 +148,7 @@ def run_time_nice(ctx, order, skip_gt1, interval_arg=NONE):
             return Seq("list", [Opaque("INTERVAL", kind="obj"), Num.atom("SKIP")])
         return None
 
-    ev = new_eval(P, on_call=hook, inline_filter=lambda fn: fn.qual not in ("scale.dt2milli", "scale.milli2dt", "scale.time_nice_floor", "scale.time_nice_ceil"))
+    ev = new_eval(P, on_call=hook, opaque=["scale.dt2milli", "scale.milli2dt", "scale.time_nice_floor", "scale.time_nice_ceil"])
     ev.assume_order(Opaque("D0"), Opaque("D1"), order)
     ev.assume_order(Num.atom("SKIP"), C(1), "gt" if skip_gt1 else "eq")
     f = P.func(TS + ".nice")
@@ -192,13 +192,14 @@ def time_nice(ctx, R):
     if skf is None:
         R.bad("C14.TIME", "skipped", where(f), "no nested predicate `skipped` in TimeScale.nice")
     else:
-        ev2 = new_eval(P, inline_filter=lambda fn: fn.qual not in ("scale.dt2milli", "scale.milli2dt"))
+        ev2 = new_eval(P, opaque=["scale.dt2milli", "scale.milli2dt"])
         env = Env({"interval": Opaque("INTERVAL", kind="obj"), "skip": Num.atom("SKIP")}, ev2.module_env("scale"), "scale", f)
         st2 = State(Env({}, env, "scale", skf))
         ev2.assume("cmp(is, date, None)", False)
         got = ev2.call_closure(Closure(skf, env), [Opaque("date")], {}, st2)
         st3 = State(Env({"date": Opaque("date"), "interval": Opaque("INTERVAL", kind="obj"), "skip": Num.atom("SKIP")}, ev2.module_env("scale"), "scale", None))
-        wants = [pexpr(ev2, st3, "not len(interval.range(date, milli2dt(dt2milli(date) + 1), skip))")]
+        rng = "interval.range(date, milli2dt(dt2milli(date) + 1), skip)"
+        wants = [pexpr(ev2, st3, t % rng) for t in ("not len(%s)", "len(%s) == 0", "not %s", "len(%s) < 1", "%s == []")]
         R.check(any(key(got) == key(w) for w in wants), "C14.TIME", "skipped(date)", where(skf), "skipped(d) == no boundary of the chosen skip in [d, d+1ms)", "skipped(date) is %s" % show(got))
     # the skip loops
     for name, meth, sign in (("scale.time_nice_floor", "floor", "-"), ("scale.time_nice_ceil", "ceil", "+")):
@@ -209,7 +210,7 @@ def time_nice(ctx, R):
             continue
         w = ws[0]
         date_p, skipped_p, interval_p = h.params[:3]
-        ev3 = new_eval(P, inline_filter=lambda fn: fn.qual not in ("scale.dt2milli", "scale.milli2dt"))
+        ev3 = new_eval(P, opaque=["scale.dt2milli", "scale.milli2dt"])
         st4 = ev3.new_state(h, {date_p: Opaque("date"), skipped_p: Opaque("skipped"), interval_p: Opaque("INTERVAL", kind="obj")})
         pre = [s for s in h.node.body[: h.node.body.index(w)]]
         ev3.block(pre, st4, [])
@@ -249,7 +250,7 @@ def samecount(ctx, R):
         return None
 
     g = P.func(TS + ".ticks")
-    ev2 = new_eval(P, on_call=hook, inline_filter=lambda fn: fn.qual not in ("scale.dt2milli", "scale.milli2dt"))
+    ev2 = new_eval(P, on_call=hook, opaque=["scale.dt2milli", "scale.milli2dt"])
     ev2.assume_order(Opaque("D0"), Opaque("D1"), "lt")
     st2 = ev2.new_state(g)
     s = Opaque("self", cls=P.cls(TS), kind="obj")
@@ -270,7 +271,7 @@ def ceil_rule(ctx, R):
     P = ctx.P
     f = P.func("d3_time.d3_time_interval.ceil")
     R.saw(f)
-    ev = new_eval(P, inline_filter=lambda fn: fn.qual not in ("d3_time.dt2milli", "d3_time.milli2dt"))
+    ev = new_eval(P, opaque=["d3_time.dt2milli", "d3_time.milli2dt"])
     st = ev.new_state(f)
     s = Opaque("self", cls=P.cls("d3_time.d3_time_interval"), kind="obj")
     st.heap[("self", "_local")] = Opaque("LOCAL")
